@@ -992,6 +992,12 @@ func (d *c17Daemon) checkTables(id, after string) bool {
 }
 
 func c17Run(c *h.Ctx) {
+	if c.Batch == 7 {
+		// one batch has the Content Store switched on and checks the effect of cs/config on what is
+		// actually cached (the command batches keep it off: status datasets would be served from it)
+		c07MgmtAs(c, "C17")
+		return
+	}
 	allow := c.Batch%2 == 0
 	algo := []string{"nametree", "hashtable"}[(c.Batch/2)%2]
 	d := c17Start(c, allow, algo)
@@ -1021,7 +1027,7 @@ func init() {
 		ID: "C17", Level: "exploration",
 		Rule: "one mini daemon per child process (core config -> table/fw/mgmt/face Configure -> FIB -> 2 running forwarding threads -> running management thread; local and non-local application faces are real NDNLP link services over recording transports); commands are encoded with the generated ControlParameters codec and injected as frames; responses and status datasets are read from the frames the transports record; " +
 			"per generated command: well-formed authorised commands (rib register/unregister with every subset of FaceId/Origin/Cost/Flags, fib add/remove, strategy set/unset, cs config, faces update) must answer 200, echo the effective parameters with the documented defaults, and leave tables and the datasets rib/list, fib/list, strategy-choice/list, cs/info, faces/list equal to a harness-side reference; " +
-			"unauthorised commands (/localhost/nfd from a non-local face, /localhop/nfd for non-RIB modules, /localhop RIB commands while disabled, other prefixes) must change nothing; malformed ones (no parameters component, garbage, missing Name/Strategy, unknown face/strategy, strategy name without a strategy component, unset on the root, Flags without Mask, MTU <= 22) must answer 4xx and change nothing; after every command the daemon must still answer status/general, and after face updates small and 8800-byte packets with and without PIT token are sent on the face; distinct = command classes",
+			"unauthorised commands (/localhost/nfd from a non-local face, /localhop/nfd for non-RIB modules, /localhop RIB commands while disabled, other prefixes) must change nothing; malformed ones (no parameters component, garbage, missing Name/Strategy, unknown face/strategy, strategy name without a strategy component, unset on the root, Flags without Mask, MTU <= 22) must answer 4xx and change nothing; one batch runs with the Content Store on: cs/config lowers the capacity (to 0, 1, 2, k-1, k/2) and the packets cached through the real pipeline afterwards must stay within it; after every command the daemon must still answer status/general, and after face updates small and 8800-byte packets with and without PIT token are sent on the face; distinct = command classes",
 		Assumptions: []string{"plain (non-race) build: races are C16's subject", "status for MTU 23..127 is left open; frames on such a face must still respect the MTU or be dropped", "face creation with sockets is not exercised (no network in the sandbox): faces are harness-made link services with fd:// URIs", "RIB commands use prefixes under /r and direct FIB commands prefixes under /f so that the two never overwrite each other"},
 		Batches:     func(t bool) int { return 8 },
 		Parallel:    8,
